@@ -89,6 +89,26 @@ CHECKS = {
             "stage x call scripts with panic/blocked-call/leak/post-shutdown-traffic monitors + race detector on real sockets", "DESIGN.md §3 C20"),
 }
 
+# later additions to the level texts (kept apart so that the table above stays readable)
+ADDENDA = {
+    "C01": " Members whose addresses travel as 16-byte IPv4 (addresses compared as addresses).",
+    "C02": " Accusations that arrive while the node has nobody to gossip to (fresh start, or every peer dead for longer than GossipToTheDeadTime): the refutation must survive the idle gossip rounds and reach the first peer that becomes known.",
+    "C03": " Scenario dimensions also include IPv6 addresses, a transport implementing only the older Transport interface, GossipNodes 1/6.",
+    "C04": " Members on IPv6 addresses; delegates whose LocalState takes 0.3-2.5 s.",
+    "C05": " Veteran restarts that come back with exactly the metadata they crashed with; IPv6 / plain-transport / GossipNodes dimensions.",
+    "C06": " One state exchange reporting several members suspect/dead (every suspicion it starts must run its own course); accusations at a newer incarnation than held; a refutation processed at the very moment the timer has run out (log-sink hook, no virtual time passes).",
+    "C07": " Start-up scenario: claims about the node's own name waiting at its address while it is created (registered finding C07/own-claim-before-announce/*).",
+    "C08": " Real-time part (simulated network on the real clock): a second Leave while the first still waits for its departure to be gossiped; Leave while an UpdateNode sits in the alive callback.",
+    "C10": " Concurrent producers for the same subjects with completion callbacks that take a while: exactly one broadcast per subject remains, every superseded one completed once.",
+    "C12": " A ping with nothing piggybacked; every encryption roll-out pair in quick; floods with the delegate free-running.",
+    "C13": " Victim whose keys are installed at run time; the node itself opening a state exchange towards a peer that never reads (bounded socket buffers in the simulated streams).",
+    "C14": " Keys installed at run time into an empty keyring; a key removed while a stream sealed under it is still arriving.",
+    "C17": " Rotation driven through the application's own keyring handles, with Keyring and SecretKey both configured.",
+    "C18": " The node's own advertised address changing to a disallowed one before UpdateNode.",
+    "C19": " An acknowledgement carrying the number of a relayed ping that could not be sent.",
+    "C20": " SendReliable / Join towards a member that completes the handshake and never reads (bounded socket buffers): the call returns about TCPTimeout later, Shutdown works, nothing stays behind.",
+}
+
 NOT_YET = "check not built yet in this round (design in DESIGN.md §3); not claimed until its monitor runs clean on the unchanged tree"
 
 
@@ -100,6 +120,7 @@ def main():
         if pid not in CHECKS:
             continue
         eng, cat, text, note, tech, ref = CHECKS[pid]
+        text += ADDENDA.get(pid, "")
         checks.append({
             "property_id": pid,
             "quick_cmd": f"./run.sh {pid} quick",
